@@ -135,8 +135,25 @@ def rule_N1(ctx):
                file=chain[0]._module.path, qualname=chain[0]._qualname)
     # the cache guard in Traversable.children: realise once
     bc = prog.find_method(trav, "children")
-    tests = [n for n in own_nodes(bc) if isinstance(n, ast.If)]
-    ok = len(tests) == 1 and norm(tests[0].test) in ("self._children is None", "not self._children")
+    # per path: the realiser runs only when the cache was found empty, its (routine-processed) result is stored, and a filled
+    # cache is handed out as it is
+    from .util import atomic_facts as _afn
+    ok, n_real, n_hit = True, 0, 0
+    for p_ in run_paths(ctx, bc, rule="N1", limit=4000):
+        if p_.end != "return":
+            continue
+        facts = dict(_afn(p_))
+        realised = any(isinstance(c_.func, ast.Attribute) and c_.func.attr == "_f_realize_children" for c_, e_, st_ in calls_on(p_))
+        empty = True if (facts.get("Is(self._children,None)") is True or facts.get("IsNot(self._children,None)") is False or facts.get("truthy(self._children)") is False) else (
+            False if (facts.get("Is(self._children,None)") is False or facts.get("IsNot(self._children,None)") is True or facts.get("truthy(self._children)") is True) else None)
+        if realised:
+            n_real += 1
+            stored = any(s_.kind == "stmt" and isinstance(s_.ast, ast.Assign) and any(dotted(t_) == "self._children" for t_ in s_.ast.targets) for s_ in p_.steps)
+            ok = ok and empty is True and stored
+        else:
+            n_hit += 1
+            ok = ok and empty is False and p_.ret is not None and p_.ret.key() == "self._children"
+    ok = ok and n_real >= 1 and n_hit >= 1
     ctx.ob("N1", bc, "Traversable.children realises once and caches", ok, "", inst="cache-guard")
 
 
@@ -182,10 +199,19 @@ def rule_N2(ctx):
     ctx.ob("N2", bs, "set_routines stores the routines", ok, "", inst="set_routines")
     # context plumbing
     bc = ctx.fn(ST, "Traversable.children", "N2")
+    # the argument of the realiser as a dict-valued term on every path that calls it (literal, dict(...), or filled key by key)
+    from ..core.terms import dict_parts as _dp2
+    from .util import evaluator as _ev2, call_parts as _cp2
     from .sem import dict_items
-    rc_ = [c for c in own_nodes(bc) if isinstance(c, ast.Call) and norm(c.func) == "self._f_realize_children" and len(c.args) == 1]
-    kv = (dict_items(bc, rc_[0].args[0]) if len(rc_) == 1 else None) or {}
-    ok = kv.get("_elem_routines") == "self._routines" and kv.get("_elem_parent") == "self"
+    kv, ok, n_rc = {}, True, 0
+    for p_ in run_paths(ctx, bc, rule="N2", limit=4000):
+        for c_, e_, st_ in calls_on(p_):
+            if isinstance(c_.func, ast.Attribute) and c_.func.attr == "_f_realize_children" and len(c_.args) == 1:
+                n_rc += 1
+                dp_ = _dp2(_ev2(ctx, bc, e_).ev(c_.args[0]).key())
+                kv = dp_[1] if dp_ is not None and not dp_[0] else {}
+                ok = ok and kv.get("_elem_routines") == "self._routines" and kv.get("_elem_parent") == "self"
+    ok = ok and n_rc >= 1
     ctx.ob("N2", bc, "children are realised with _elem_parent = self and _elem_routines = self._routines", ok, f"{kv}", inst="context-additions")
     lp = ctx.fn("smpl_extract/akai/image.py", "AkaiImageParser._load_partitions", "N2")
     from .util import evaluator as _ev2, call_parts as _cp2
